@@ -338,6 +338,12 @@ def run_unit(unit):
                 th = math.radians(mf)
                 yp = y_par_full * np.tan(HY * th) / math.tan(th)
                 same(part, 'grid-distortion-predicted-points', 'GridDistortion', condg, det0, gd.data['yp'], yp, tol=1e-5 * max(1.0, abs(y_par_full)))
+            else:
+                # object heights: the paraxial image of the object point (HX, HY) h is m h (HX, HY), for x exactly as for y
+                same(part, 'grid-distortion-predicted-points', 'GridDistortion', condg, dict(det0, axis='y'), gd.data['yp'], y_par_full * HY,
+                     tol=1e-5 * max(1.0, abs(y_par_full)))
+                same(part, 'grid-distortion-predicted-points', 'GridDistortion', condg, dict(det0, axis='x'), gd.data['xp'], y_par_full * HX,
+                     tol=1e-5 * max(1.0, abs(y_par_full)))
             xp, ypl = np.asarray(gd.data['xp'], float), np.asarray(gd.data['yp'], float)
             rp = np.hypot(xp, ypl)
             with np.errstate(all='ignore'):
